@@ -1,0 +1,15 @@
+// Unless explicitly stated otherwise all files in this repository are licensed
+// under the Apache License Version 2.0.
+// This product includes software developed at Datadog (https://www.datadoghq.com/).
+// Copyright 2025-present Datadog, Inc.
+
+//go:build verif
+
+package traceroute
+
+import "github.com/DataDog/datadog-traceroute/publicip"
+
+// NewTracerouteWithFetcher returns a Traceroute that uses the given public IP fetcher
+func NewTracerouteWithFetcher(fetcher publicip.Fetcher) *Traceroute {
+	return &Traceroute{publicIPFetcher: fetcher}
+}
